@@ -26,7 +26,7 @@ RULE = ("seeded sequence specs (vlib/seqgen.py): N, layout, channels {global, lo
         "step Hamiltonians were applied")
 ASSUMPTIONS = [
     "reference = exact evolution (eigh) of the dense Hamiltonian in Pulser's documented convention (vlib/ref.py)",
-    "tolerance |dpsi| <= n_steps*10*krylov_tolerance + 1e-9; observables the same times (1+|H|) resp. (1+|H|)^2",
+    "tolerance |dpsi| <= n_steps*(10*krylov_tolerance + 2e-10) + 1e-9 (2e-10 = measured accuracy floor of torch.linalg.matrix_exp); observables the same times (1+|H|) resp. (1+|H|)^2",
     "when the SLM mask ends strictly inside a step, the step may use the interaction matrix of its start or of its midpoint",
     "QutipEmulator clause replaced by the decomposition described in DESIGN.md 0.1",
 ]
@@ -126,7 +126,7 @@ def run_case(case):
         viol.append({"key": "C01:solver-given-wrong-number-of-atoms", "msg": f"{fp}: omega has {snap['omega'].shape[1]} columns for {n} atoms"})
         return {"fp": fp, "nontrivial": False, "violations": viol, "counters": cnt, "max": worst, "sample": sample}
     nsteps = len(snap["target_times"]) - 1
-    state_tol = nsteps * 10 * case["ktol"] + 1e-9
+    state_tol = nsteps * (10 * case["ktol"] + 2e-10) + 1e-9  # 2e-10 per step: torch.linalg.matrix_exp floor (see C07)
     straddle = e2e.straddles_slm(snap)
     modes = ["start", "mid"] if straddle else ["start"]
     best = None
